@@ -814,11 +814,48 @@ fn rand_ws(r: &mut Rng) -> u8 {
     WS[r.below(5)]
 }
 
+/// Fragments a comment may start with, contain or end with: every ASCII punctuation character,
+/// token-like text, bracket / quote / brace / backslash shapes, keywords, digits, NUL, multi-byte
+/// characters.  A comment is `#` up to the next LF or CR whatever it contains.
+const COMMENT_FRAGS: [&str; 64] = [
+    "!", "\"", "#", "$", "%", "&", "'", "(", ")", "*", "+", ",", "-", ".", "/", ":", ";", "<", "=", ">", "?", "@", "[",
+    "\\", "]", "^", "_", "`", "{", "|", "}", "~", "]#", "#[", "[1]", "#[1] note", "[[", "#!", "##", "{x}", "{{", "\"open",
+    "'open", "\\n", "\\\"", "start", "end", "if to say", "if not so", "small pass", "make x get 1", "return", "0", "1.",
+    "2.5", "0x1f", "\u{0}", "\u{e9}", "\u{65e5}\u{672c}", "\u{1F30D}", "\t", "\u{c}", "*/", "//",
+];
+
 fn rand_comment(r: &mut Rng, i: usize) -> SepElem {
-    let bodies: [&[u8]; 6] = [b"", b" c", b" if to say (", b"# \"quote' \\", " n\u{e9}e \u{1F30D}".as_bytes(), b" end start make"];
-    let mut body = bodies[r.below(bodies.len())].to_vec();
-    if r.chance(30) {
-        body.extend_from_slice(format!(" {i}").as_bytes());
+    let mut body: Vec<u8> = Vec::new();
+    let c = r.below(100);
+    if c < 15 {
+        // the plain shapes
+        let bodies: [&[u8]; 5] = [b"", b" c", b" if to say (", b"# \"quote' \\", b" end start make"];
+        body.extend_from_slice(bodies[r.below(bodies.len())]);
+        if r.chance(30) {
+            body.extend_from_slice(format!(" {i}").as_bytes());
+        }
+    } else {
+        // [blank?] fragment, filler and fragments up to a length of 0..200, fragment at the end
+        let target = match r.below(10) {
+            0..=4 => r.below(12),
+            5..=7 => 12 + r.below(50),
+            _ => 60 + r.below(141),
+        };
+        if r.chance(35) {
+            body.push(b' ');
+        }
+        body.extend_from_slice(COMMENT_FRAGS[r.below(COMMENT_FRAGS.len())].as_bytes());
+        while body.len() < target {
+            if r.chance(40) {
+                body.extend_from_slice(COMMENT_FRAGS[r.below(COMMENT_FRAGS.len())].as_bytes());
+            } else {
+                let words: [&[u8]; 6] = [b" ", b"note", b" the bonus is applied below", b"x", b"  ", b"42"];
+                body.extend_from_slice(words[r.below(words.len())]);
+            }
+        }
+        if r.chance(60) {
+            body.extend_from_slice(COMMENT_FRAGS[r.below(COMMENT_FRAGS.len())].as_bytes());
+        }
     }
     SepElem::Comment(body, if r.chance(70) { b'\n' } else { b'\r' })
 }
@@ -982,7 +1019,10 @@ fn make_layout(kind: &str, src: &[u8], toks: &[Tok], pieces: &[Piece], r: &mut R
                 a.after.push(sp);
             }
             if matches!(kind, "mixed" | "comments") && r.chance(40) {
-                a.tail = Some(b" last line, no line break".to_vec());
+                a.tail = Some(match rand_comment(r, n) {
+                    SepElem::Comment(b, _) if r.chance(70) => b,
+                    _ => b" last line, no line break".to_vec(),
+                });
             }
         }
     }
